@@ -1,2 +1,23 @@
 import PugModel.Fn.Math
 /-! Types used by the generated tables (the generated file imports only this). -/
+namespace Pug.Gen
+
+/-- body of a comparison closure of runtime.go's funcmap, over the two primitive relations -/
+inductive BExpr where
+  | lss | eql            -- runtimeLss(x, y) / runtimeEql(x, y)
+  | lssSwapped | eqlSwapped   -- runtimeLss(y, x) / runtimeEql(y, x)
+  | not (a : BExpr)
+  | and (a b : BExpr)
+  | or (a b : BExpr)
+  deriving Repr, DecidableEq
+
+def BExpr.eval (lss eql lssS eqlS : Bool) : BExpr → Bool
+  | .lss => lss
+  | .eql => eql
+  | .lssSwapped => lssS
+  | .eqlSwapped => eqlS
+  | .not a => !(a.eval lss eql lssS eqlS)
+  | .and a b => a.eval lss eql lssS eqlS && b.eval lss eql lssS eqlS
+  | .or a b => a.eval lss eql lssS eqlS || b.eval lss eql lssS eqlS
+
+end Pug.Gen
